@@ -107,14 +107,18 @@ def run(ctx: Context) -> None:
         ctx.check('R06.2', ok, "UGRID points are (node_x[n], node_y[n]) for a face's nodes in listed order", ug, sp[0], construct=f"coords = {detail[:120]}")
         from ..pattern import Matcher
         m = Matcher(ctx, ug)
-        size_st = m.stmt('$sizes = numpy.sum(~numpy.ma.getmaskarray($face_node), axis=1)') or \
-            m.stmt('$sizes = numpy.count_nonzero(~numpy.ma.getmaskarray($face_node), axis=1)') or \
-            m.stmt('$sizes = (~numpy.ma.getmaskarray($face_node)).sum(axis=1)') or \
-            m.stmt('$sizes = numpy.ma.count($face_node, axis=1)')
-        fn_uses = [n for n in ast.walk(ug.node) if isinstance(n, ast.Name) and n.id == m.name('face_node') and isinstance(n.ctx, ast.Load)] if size_st is not None else []
+        size_st = m.stmt('$sizes = numpy.sum(~numpy.ma.getmaskarray($$face_node), axis=1)') or \
+            m.stmt('$sizes = numpy.count_nonzero(~numpy.ma.getmaskarray($$face_node), axis=1)') or \
+            m.stmt('$sizes = (~numpy.ma.getmaskarray($$face_node)).sum(axis=1)') or \
+            m.stmt('$sizes = numpy.ma.count($$face_node, axis=1)')
         # the table the sizes are counted on and the rows are gathered from is the normalised face-node table itself,
-        # unfiltered (a filtered copy has other row numbers than the output array)
-        ok = bool(fn_uses) and all(isinstance(flow.resolve(n), ast.Attribute) and flow.resolve(n).attr == 'face_node_array' for n in fn_uses) \
+        # unfiltered (a filtered copy has other row numbers than the output array), under whatever name
+        def is_table(e) -> bool:
+            v = flow.resolve(e)
+            return isinstance(v, ast.Attribute) and v.attr == 'face_node_array'
+        counted = m.enodes.get('face_node') if size_st is not None else None
+        gathered = [c.args[0] for c in calls_in(ug) if callee(ctx, ug, c) in ('numpy.ma.getdata', 'numpy.ma.getmaskarray', 'numpy.ma.getmask', 'numpy.ma.count') and c.args]
+        ok = counted is not None and is_table(counted) and bool(gathered) and all(is_table(g_) for g_ in gathered) \
             and m.has('$rows = numpy.flatnonzero($sizes == $size)')
         ctx.check('R06.2', ok, "a face's vertex count is the number of unmasked entries in its row of the face-node table, and faces are grouped by that count", ug, size_st or ug.node)
 
